@@ -149,7 +149,12 @@ def run_check(pid, title, body, argv=None, configs=("real", "complex")):
 
     known, fixed = load_known()
     known = [k for k in known if k.get("property") == pid]
-    os.makedirs(os.path.join(EVID, "replay"), exist_ok=True)
+    noev = "--no-evidence" in argv
+    rdir = os.path.join(EVID, "replay") if not noev else os.path.join(os.environ.get("POMVERIF_CACHE", "/var/tmp"), "replay")
+    os.makedirs(rdir, exist_ok=True)
+    for old in os.listdir(rdir):
+        if old.startswith(pid + "-"):
+            os.unlink(os.path.join(rdir, old))
     # ---- report
     viol = {}
     total = 0
@@ -182,7 +187,7 @@ def run_check(pid, title, body, argv=None, configs=("real", "complex")):
             continue
         k += 1
         nviol += 1
-        rp = os.path.join(EVID, "replay", "%s-%d.json" % (pid, k))
+        rp = os.path.join(rdir, "%s-%d.json" % (pid, k))
         json.dump({"property": pid, "rule": rid, "site": site, "instances": insts,
                    "configs": sorted(set(i["config"] for i in insts)),
                    "how_to_replay": "cd /verif && ./verify %s --tier %s   (the rule re-analyses the named function on the current tree)" % (pid, tier)},
@@ -239,6 +244,7 @@ def run_check(pid, title, body, argv=None, configs=("real", "complex")):
     }
     ev["coverage"].update(chk.extra)
     os.makedirs(EVID, exist_ok=True)
-    json.dump(ev, open(os.path.join(EVID, pid + ".json"), "w"), indent=1)
+    if "--no-evidence" not in argv:
+        json.dump(ev, open(os.path.join(EVID, pid + ".json"), "w"), indent=1)
     print("%s: %d instances, %d ok, %d violation sites, %d known findings, %.1fs" % (pid, total, okc, nviol, nknown, time.time() - t0))
     sys.exit(1 if nviol else 0)
